@@ -20,7 +20,8 @@ RULE = ("seeded random small continua (2-4 annotators, labelled) x n_samples 1..
         "default-sampler computations running concurrently in two user threads on disjoint continua; first batches of "
         "257-520 samples with a precision level; sessions with an edit of the continuum object (add_annotator, merge of a unit-less annotator, add, remove, "
         "reset_bounds) between two computations; a quarter of the computations run with cylp not importable or with CBC failing (always / every "
-        "third call) while every alignment is recomputed afterwards under the normal configuration. "
+        "third call) while every alignment is recomputed afterwards under the normal configuration; one case in seven has one alignment job of the "
+        "computation find no usable solver at all (a refusal is accepted, a reported gamma is judged like any other). "
         "non-trivial = every case (>= 1 sample); distinct by SHA-1 of the case")
 ASSUMPTIONS = [
     "N_required is recomputed in float64 from the first n_samples chance disorders; any count between the ceilings of "
@@ -366,6 +367,9 @@ def check_case(ctx, case):
             first = np.asarray([float(a.disorder) for a in dry.chance_alignments], dtype=np.float64)
             cv = first.std() / first.mean() if first.mean() else 0.0
         except Exception as e:
+            if str(case.get("backend", "")).startswith("onejobfails"):
+                ctx.observe("one_job_without_solver", "refused:" + type(e).__name__)
+                return
             ctx.fail_exc(f"compute_gamma-raises:{type(e).__name__}", e, monitor="M-GAMMA")
             return
         target = case["target_N"]
@@ -378,8 +382,15 @@ def check_case(ctx, case):
     try:
         res, sampler = run_gamma(case, continuum, dissim, case["precision"])
     except Exception as e:
+        if str(case.get("backend", "")).startswith("onejobfails"):
+            # one alignment job had no usable solver: refusing to report a gamma is a right answer; a gamma that IS reported is
+            # judged like any other (in particular it holds the number of chance alignments it was asked for)
+            ctx.observe("one_job_without_solver", "refused:" + type(e).__name__)
+            return
         ctx.fail_exc(f"compute_gamma-raises:{type(e).__name__}", e, monitor="M-GAMMA")
         return
+    if str(case.get("backend", "")).startswith("onejobfails"):
+        ctx.observe("one_job_without_solver", "a gamma was reported (judged like any other)")
     ctx.observe("chance_alignments_bucket", _bucket(len(res.chance_alignments)))
     check_gamma(ctx, case, continuum, dissim, sampler, res, gt)
 
@@ -426,7 +437,7 @@ def gen_case(ctx, dspecs):
             "np_seed": rng.randrange(2 ** 31), "identical": identical}
     if target:
         case["target_N"] = target
-    case["backend"] = rng.choice(["cbc", "cbc", "cbc", "glpk", "cbcfail", "cbcfail3"])
+    case["backend"] = rng.choice(["cbc", "cbc", "cbc", "glpk", "cbcfail", "cbcfail3", "onejobfails" + str(rng.randint(2, 4))])
     case["arg_types"] = {"precision": rng.choice(["float", "float", "float64", "float32"]),
                          "off": rng.choice(["false", "false", "none", "zero", "npbool"]), "on": rng.choice(["true", "true", "one", "npbool"]),
                          "gt": rng.choice(["list", "list", "tuple", "set", "generator", "keys", "sortedset", "reversed"])}
